@@ -59,7 +59,7 @@ def check_program(text):
 # ---------------------------------------------------------------------------
 # enumerated capture-pattern family
 
-ROLES = ["CM", "C", "M", "S", "F", "R", "L", "RM", "RA"]
+ROLES = ["CM", "C", "M", "S", "F", "R", "L", "RM", "RA", "T"]
 
 
 def capture_program(roles):
@@ -98,6 +98,11 @@ def capture_program(roles):
             return "((lambda () %s))" % body
         if r == "R":
             return "((lambda (a%d . %s) (keep! (lambda () (length %s))) %s) %s %s)" % (i, v, v, inner, arg, " ".join(str(k) for k in range(i + 1)))
+        if r == "T":
+            # a closure stored in the value of an earlier internal define refers to a procedure defined later in the body
+            body = ("(define tbl%d (list (lambda () (helper%d 1)) 'x)) (define (helper%d n) (+ n %s)) (keep! (car tbl%d)) (note! ((car tbl%d))) %s"
+                    % (i, i, i, v, i, i, inner))
+            return "((lambda (%s) %s) %s)" % (v, body, arg)
         if r == "RM":
             # rest parameter that is only assigned, never read; the call sits among sibling operands of its caller
             return ("(let ((res (list ((lambda (a%d . %s) (set! %s 'assigned%d) %s) %s %s) 'sib-a%d 'sib-b%d))) (note! (cdr res)) (car res))"
@@ -114,6 +119,56 @@ def capture_program(roles):
     lines.append("(note! %s)" % level(0))
     lines.append("(write (reverse out)) (newline)")
     return "\n".join(lines) + "\n"
+
+
+FIRST_CLASS_OPS = {
+    # op: (allowed argument counts, argument maker)
+    "+": ([0, 1, 2, 3, 4], "int"), "*": ([0, 1, 2, 3, 4], "int"), "-": ([1, 2, 3, 4], "int"), "/": ([1, 2, 3], "nz"),
+    "=": ([2, 3, 4], "int"), "<": ([2, 3, 4], "int"), ">": ([2, 3, 4], "int"), "<=": ([2, 3, 4], "int"), ">=": ([2, 3, 4], "int"),
+    "max": ([1, 2, 3], "int"), "min": ([1, 2, 3], "int"), "append": ([0, 1, 2, 3], "list"), "list": ([0, 1, 2, 3], "int"),
+    "vector": ([0, 1, 2, 3], "int"), "string-append": ([0, 1, 2, 3], "str"), "gcd": ([0, 1, 2, 3], "nz"), "lcm": ([1, 2, 3], "nz"),
+    "cons": ([2], "int"), "eq?": ([2], "int"), "car": ([1], "list1"), "not": ([1], "int"), "vector-ref": ([2], "vref"),
+}
+
+
+def first_class_program(op, counts, via):
+    """the same primitive used as a first-class value with different argument counts, in the given order (a cached
+    procedure object for one arity must not be reused for another), and finally in operator position"""
+    def args(n, kind, salt):
+        if kind == "int":
+            return [str((salt * 7 + i * 3) % 11 - 3) for i in range(n)]
+        if kind == "nz":
+            return [str((salt * 5 + i * 2) % 7 + 1) for i in range(n)]
+        if kind == "list":
+            return ["(list %d %d)" % (salt + i, i) for i in range(n)]
+        if kind == "list1":
+            return ["(list %d)" % salt]
+        if kind == "vref":
+            return ["(vector 5 6 7)", str(salt % 3)]
+        return ['"s%d%d"' % (salt, i) for i in range(n)]
+    allowed, kind = FIRST_CLASS_OPS[op]
+    parts = []
+    for j, n in enumerate(counts):
+        a = args(n, kind, j + 1)
+        if via[j % len(via)] == "apply":
+            parts.append("(apply %s (list %s))" % (op, " ".join(a)))
+        elif via[j % len(via)] == "var":
+            parts.append("(let ((f %s)) (f %s))" % (op, " ".join(a)))
+        elif via[j % len(via)] == "map" and n >= 1:
+            parts.append("(map %s %s)" % (op, " ".join("(list %s)" % x for x in a)))
+        else:
+            parts.append("((car (list %s)) %s)" % (op, " ".join(a)))
+    parts.append("(%s %s)" % (op, " ".join(args(allowed[0], kind, 9))))
+    return "(write (list %s))\n(newline)\n" % " ".join(parts)
+
+
+def first_class_family():
+    for op, (allowed, kind) in sorted(FIRST_CLASS_OPS.items()):
+        for counts in itertools.product(allowed, repeat=2):
+            for via in (("apply",), ("var",), ("map", "apply"), ("carlist", "var")):
+                yield (op, list(counts), list(via))
+        for counts in itertools.product(allowed, repeat=3):
+            yield (op, list(counts), ["apply", "var", "map"])
 
 
 def capture_family():
@@ -145,6 +200,19 @@ def run_shard(spec):
         res.case({"family": list(roles)}, True, cls=["family:depth%d" % len(roles)], sample=(rng.random() < 0.01))
         if found:
             res.violation({"family": list(roles)}, "family/" + found.signature, found.detail)
+    # (1b) first-class uses of one primitive with varying argument counts (each program runs in a pristine context)
+    fc = [c for i, c in enumerate(first_class_family()) if i % spec["nshards"] == spec["shard"]]
+    if quick:
+        fc = [c for c in fc if rng.random() < 0.25]
+    for op, counts, via in fc:
+        text = first_class_program(op, counts, via)
+        found, status = check_program(text)
+        if status == "discard":
+            res.excluded["reference_discarded"] += 1
+            continue
+        res.case({"first_class": [op, counts, via]}, len(set(counts)) > 1, cls=["first-class-primitive"], sample=(rng.random() < 0.01))
+        if found:
+            res.violation({"program": text}, "first-class/" + found.signature, found.detail)
     if not quick:
         res.extra["exhaustive_capture_family"] = True
 
